@@ -260,9 +260,10 @@ func CanAbut(a, b string) bool {
 	}
 	switch b {
 	case "}}", "%}", "-}}", "-%}":
-		return la != '-' && la != '}' && la != '%' && la != '#' && la != '{'
+		// a closing brace right in front is the end of a hash: {{ {a: 1}}} closes the hash first
+		return la != '-' && la != '%' && la != '#' && la != '{'
 	case "}": // interpolation close
-		return la != '}' && la != '{' && la != '#' && la != '%'
+		return la != '{' && la != '#' && la != '%'
 	}
 	ra, _ := utf8.DecodeLastRuneInString(a)
 	rb, _ := utf8.DecodeRuneInString(b)
@@ -278,17 +279,15 @@ func CanAbut(a, b string) bool {
 	if la == '{' && (fb == '{' || fb == '%' || fb == '#') {
 		return false
 	}
-	if (la == '}' || la == '%' || la == '#') && fb == '}' {
+	if (la == '%' || la == '#') && fb == '}' {
 		return false
 	}
 	if la == '#' && fb == '{' {
 		return false
 	}
-	if la == '{' || fb == '}' {
-		// hash braces next to anything that could complete a delimiter
-		if fb == '{' || la == '}' {
-			return false
-		}
+	if la == '{' && fb == '{' {
+		// two opening braces are the start of a print statement; closing braces close hashes as long as one is open
+		return false
 	}
 	return true
 }
